@@ -34,7 +34,7 @@ Note(names) ==
 Init == l = 1 /\ viol = {} /\ cnt = <<>>
         /\ stat = [scripted |-> 0, real |-> 0, calls |-> 0, full |-> 0, looping |-> 0, boundary |-> 0,
                    bumped |-> 0, none |-> 0, hang |-> 0, clauses |-> 0, roundup |-> 0, onb_starts |-> 0,
-                   bumpout |-> 0]
+                   bumpout |-> 0, advances |-> 0]
 
 Responses(calls, kind) ==
   LET sel == SelectSeq(calls, LAMBDA c : c[1] = kind) IN
@@ -116,6 +116,7 @@ TReal ==
            \* the bumps after which the fresh location disagrees)
            volok == \/ oc = "boundary"
                     \/ ~Rec.out1 /\ Rec.vol1 = Rec.vol0 /\ (oc = "bumped" \/ Rec.volf = Rec.vol0)
+           exh == orc.drv_exh > k.zero
            bumpmove == Len(calls) > 0 /\ calls[Len(calls)][1] \in {"MoveTo", "MoveToD"}
            momok == orc.unit_res <= orc.unit_tol /\ k.p1 = k.p0 /\ orc.pdrift <= orc.pdrift_tol
            \* the last iteration committed a boundary: the momentum taken from the end of that
@@ -130,20 +131,35 @@ TReal ==
                           THEN {"C08.VolumeUnchanged.AfterReentrantRetry@" \o Rec.stepper}   \* F-FIELD-3
                           ELSE {"C08.VolumeUnchanged@" \o Rec.stepper})
                \cup (IF momok THEN {} ELSE {"C08.Oracle.MomentumMagnitude"})
-               \cup (IF orc.helix => orc.hres <= orc.htol THEN {} ELSE {"C08.Oracle.HelixPosition@" \o Rec.stepper})
+               \* DRIVER LEVEL (every recorded FieldDriver::advance call of this propagation):
+               \* the step the driver reports is the arc length integrated by the chain of stepper
+               \* evaluations that produced the state it returns (tolerance: the code's soft_equal) ...
+               \cup (IF orc.drv_chain /\ orc.drv_rel <= orc.one THEN {} ELSE {"C08.DriverStepMatchesState"})
+               \* ... named deviation F-FIELD-4: a trial loop ran out of max_nsteps and shrank the step
+               \* after its last evaluation (the state is AHEAD of the reported step by at most the rescale)
+               \cup (IF exh THEN {"C08.DriverStepMatchesState.BudgetExhausted"} ELSE {})
+               \* ... and (Oracle, uniform fields) that state lies on the analytic helix through the input
+               \* state at arc length = the reported step, with the momentum magnitude kept
+               \cup (IF orc.helix => orc.drv_pos <= orc.one THEN {} ELSE {"C08.Oracle.DriverHelixPosition@" \o Rec.stepper})
+               \cup (IF orc.helix => orc.drv_dir <= orc.one THEN {} ELSE {"C08.Oracle.DriverHelixDirection@" \o Rec.stepper})
+               \cup (IF orc.drv_mag <= orc.one THEN {} ELSE {"C08.Oracle.DriverMomentumMagnitude@" \o Rec.stepper})
+               \* PROPAGATION LEVEL (not decidable when a returned state was not at its reported step)
+               \cup (IF (orc.helix /\ ~exh) => orc.hres <= orc.htol THEN {} ELSE {"C08.Oracle.HelixPosition@" \o Rec.stepper})
                \cup (IF momat THEN {} ELSE {"C08.MomentumAtEndPoint"})
                \* (when the momentum was taken from a distant point the direction oracle has nothing to add)
-               \cup (IF (orc.helix /\ momat) => orc.ares <= orc.atol THEN {} ELSE {"C08.Oracle.HelixDirection@" \o Rec.stepper})
+               \cup (IF (orc.helix /\ momat /\ ~exh) => orc.ares <= orc.atol THEN {} ELSE {"C08.Oracle.HelixDirection@" \o Rec.stepper})
                \* a full step reported although the accepted substeps add up to less: the rest must be
                \* negligible (not applicable when the full step IS the bump: step <= bump_distance)
                \cup (IF (oc = "full" /\ ~bumpmove) => k.gap <= k.tolgap THEN {} ELSE {"C08.RoundUpBounded"})
-               \* contract edges: assertions of the code itself that only a debug build evaluates
-               \cup (IF (oc = "full" /\ ~bumpmove) => k.gap <= k.softtol THEN {} ELSE {"C08.Edge.RoundUpNotSoftEqual"})
+               \* contract edges: assertions of the code itself that only a debug build evaluates (the first
+               \* depends on how the driver's chord search shortens a substep, hence on the stepper)
+               \cup (IF (oc = "full" /\ ~bumpmove) => k.gap <= k.softtol THEN {} ELSE {"C08.Edge.RoundUpNotSoftEqual@" \o Rec.stepper})
                \cup (IF oc = "boundary" => res.dist <= k.step THEN {} ELSE {"C08.Edge.BoundaryBeyondStep"}))
-       /\ stat' = [stat EXCEPT !.real = @ + 1, !.calls = @ + Len(calls), ![oc] = @ + 1, !.clauses = @ + 16,
+       /\ stat' = [stat EXCEPT !.real = @ + 1, !.calls = @ + Len(calls), ![oc] = @ + 1, !.clauses = @ + 21,
                                !.roundup = @ + (IF oc = "full" /\ ~bumpmove /\ k.gap > k.zero THEN 1 ELSE 0),
                                !.onb_starts = @ + (IF Rec.onb0 THEN 1 ELSE 0),
-                               !.bumpout = @ + (IF oc = "bumped" /\ Rec.volf # Rec.vol0 THEN 1 ELSE 0)]
+                               !.bumpout = @ + (IF oc = "bumped" /\ Rec.volf # Rec.vol0 THEN 1 ELSE 0),
+                               !.advances = @ + Len(adv)]
 
 TInfo == Rec.e \in {"Info", "Close"} /\ UNCHANGED <<viol, cnt, stat>>
 \* the harness process itself had to be killed (written by the check, not by the harness)
